@@ -1,7 +1,9 @@
 package main
 
 import (
+	"fmt"
 	"go/token"
+	"go/types"
 	"strings"
 
 	"golang.org/x/tools/go/ssa"
@@ -9,7 +11,7 @@ import (
 
 func init() {
 	register("C03", []string{".", "./internal/tombspan", "./internal/compact"}, runC03)
-	propExplain["C03"] = "Decides structural clauses of C03: a snapshot's sequence number is read and the snapshot is registered in one DB.mu critical section (also for eventually-file-only snapshots, whose wait loop only uses cond.Wait); every use of the snapshot list happens with DB.mu held (lockset with requires-held summaries); the snapshot list of the moment reaches the compaction iterator's configuration; a closed snapshot is removed from the list before compactions are reconsidered; wide tombstones are promoted to 'deletable' only with the list's current earliest snapshot and only if strictly older than it; Snapshot.Get/NewIter/ScanInternal read at the snapshot's own sequence number. Does not decide that compaction output preserves the right versions (value part of C17)."
+	propExplain["C03"] = "Decides structural clauses of C03: a snapshot's sequence number is read and the snapshot is registered in one DB.mu critical section (also for eventually-file-only snapshots, whose wait loop only uses cond.Wait); every use of the snapshot list happens with DB.mu held (lockset with requires-held summaries); the snapshot list of the moment reaches the compaction iterator's configuration; a closed snapshot is removed from the list before compactions are reconsidered; wide tombstones are promoted to 'deletable' only with the list's current earliest snapshot and only if strictly older than it; Snapshot.Get/NewIter/ScanInternal read at the snapshot's own sequence number, and an eventually-file-only snapshot's NewIter/ScanInternal do so on every definition of their options (file-only or not). Does not decide that compaction output preserves the right versions (value part of C17)."
 }
 
 func pebbleFuncs(c *Ctx) []*ssa.Function {
@@ -44,11 +46,40 @@ func runC03(c *Ctx) {
 		if fn == nil {
 			continue
 		}
+		register := Or(CallTo("p.(*snapshotList).pushBack"), CallTo("man.(*Version).Ref"))
+		entry := emptyState()
+		if len(instrs(fn, register)) == 0 {
+			// the read-and-register sequence was moved into a "...Locked" helper: the helper must be
+			// called with DB.mu held, and the rule is decided inside it
+			var helper *ssa.Function
+			for _, b := range fn.Blocks {
+				for _, in := range b.Instrs {
+					if call, ok := in.(*ssa.Call); ok {
+						if cal := call.Common().StaticCallee(); cal != nil && inModule(cal) && len(cal.Blocks) > 0 && len(instrs(cal, register)) > 0 {
+							helper = cal
+						}
+					}
+				}
+			}
+			if helper != nil {
+				h := helper
+				fl0 := NewFlow(c.P).After("held:DB.mu", lock).KillAfter("held:DB.mu", unlock)
+				fl0.MaxDepth = 0
+				res0 := fl0.Analyze(fn, emptyState())
+				c.noteFlow(fl0)
+				c.Require("C03.R1", res0, Pred("call "+h.Name(), func(in ssa.Instruction) bool {
+					cc := getCallCommon(in)
+					return cc != nil && cc.StaticCallee() == h
+				}), "the helper that reads the seqnum and registers the snapshot is called with DB.mu held", []string{"held:DB.mu"})
+				fn = helper
+				entry.add("held:DB.mu")
+			}
+		}
 		seqLoad := snapshotSeqNumLoads(fn) // in fn itself, or (by callee summary: on every path of) a closure it calls
 		fl := NewFlow(c.P).After("held:DB.mu", lock).KillAfter("held:DB.mu", unlock).
 			After("seqnum-read-in-this-region", seqLoad).
 			KillAfter("seqnum-read-in-this-region", Or(unlock, CallTo("sync.(*Cond).Wait"))) // Wait releases DB.mu while it blocks
-		res := fl.Analyze(fn, emptyState())
+		res := fl.Analyze(fn, entry)
 		c.noteFlow(fl)
 		n := c.Require("C03.R1", res, seqLoad, "snapshot seqnum read under DB.mu", []string{"held:DB.mu"})
 		n2 := c.Require("C03.R1", res, Or(CallTo("p.(*snapshotList).pushBack"), CallTo("man.(*Version).Ref")), "snapshot registered in the same DB.mu region in which its seqnum was read", []string{"held:DB.mu", "seqnum-read-in-this-region"})
@@ -162,6 +193,7 @@ func runC03(c *Ctx) {
 		}
 	}
 	// C03.V1
+	efosReadsAtOwnSeqNum(c, "C03.V1")
 	seqF := c.Field("C03.V1", "p.Snapshot.seqNum")
 	for _, spec := range []struct{ fn, callee string }{
 		{"p.(*Snapshot).NewIterWithContext", "p.(*DB).newIter"},
@@ -288,4 +320,136 @@ func snapshotSeqNumLoads(fn *ssa.Function) M {
 		}
 	}
 	return Pred("the visibleSeqNum.Load() that becomes the snapshot's seqnum", func(in ssa.Instruction) bool { return set[in] })
+}
+
+// efosReadsAtOwnSeqNum (added after seed C45-c): every read entry point of an eventually-file-only
+// snapshot hands DB.newIter / DB.newInternalIter a snapshotIterOpts whose seqNum was set from the
+// snapshot's own seqNum — on EVERY definition that can reach the call (both the "already
+// file-only" and the "still a regular snapshot" arm), not on some. A zero seqNum means "read at
+// the DB's current visible sequence number": the pinned version's tables also hold keys written
+// after the snapshot.
+func efosReadsAtOwnSeqNum(c *Ctx, rule string) {
+	seqF := c.Field(rule, "p.EventuallyFileOnlySnapshot.seqNum")
+	optSeq := c.Field(rule, "p.snapshotIterOpts.seqNum")
+	if seqF == nil || optSeq == nil {
+		return
+	}
+	optT := c.P.TypeByPath("p.snapshotIterOpts")
+	fromOwn := func(v ssa.Value) bool {
+		return len(derivesFrom(v, func(x ssa.Value) bool { return isLoadOfField(x, seqF) }, 4)) > 0
+	}
+	type verdict struct {
+		ok  bool
+		why string
+	}
+	memo := map[ssa.Value]*verdict{}
+	var allDefs func(v ssa.Value, d int, seen map[ssa.Value]bool) (bool, string)
+	var allDefs1 func(v ssa.Value, d int, seen map[ssa.Value]bool) (bool, string)
+	allDefs = func(v ssa.Value, d int, seen map[ssa.Value]bool) (bool, string) {
+		v = stripConv(v)
+		if m, ok := memo[v]; ok {
+			if m == nil {
+				return true, "" // a cycle through a phi: decided by the other edges
+			}
+			return m.ok, m.why
+		}
+		memo[v] = nil
+		ok, why := allDefs1(v, d, seen)
+		memo[v] = &verdict{ok, why}
+		return ok, why
+	}
+	allDefs1 = func(v ssa.Value, d int, seen map[ssa.Value]bool) (bool, string) {
+		if d > 8 {
+			return false, "definition chain too deep"
+		}
+		switch x := v.(type) {
+		case *ssa.Phi:
+			for _, e := range x.Edges {
+				if ok, why := allDefs(e, d+1, seen); !ok {
+					return false, why
+				}
+			}
+			return true, ""
+		case *ssa.UnOp:
+			al, isAlloc := x.X.(*ssa.Alloc)
+			if x.Op != token.MUL || !isAlloc {
+				return false, "options do not come from a local struct"
+			}
+			elem := derefT(al.Type())
+			direct := optT != nil && types.Identical(elem, optT)
+			// The struct is built in place: (optionally) zeroed as a whole, then its fields stored.
+			// "good" = a store that makes the options carry the snapshot's seqNum; a whole-struct
+			// store of anything else (the zero value included) undoes it.
+			good := func(in ssa.Instruction) bool {
+				st, ok := in.(*ssa.Store)
+				if !ok {
+					return false
+				}
+				if st.Addr == ssa.Value(al) {
+					if k, isK := st.Val.(*ssa.Const); isK && k != nil {
+						return false
+					}
+					ok2, _ := allDefs(st.Val, d+1, seen)
+					return ok2
+				}
+				fa, isFA := st.Addr.(*ssa.FieldAddr)
+				if !isFA || fa.X != ssa.Value(al) {
+					return false
+				}
+				if direct {
+					return fieldVar(fa.X.Type(), fa.Field) == optSeq && fromOwn(st.Val)
+				}
+				if optT != nil && types.Identical(st.Val.Type(), optT) {
+					ok2, _ := allDefs(st.Val, d+1, seen)
+					return ok2
+				}
+				return false
+			}
+			undo := func(in ssa.Instruction) bool {
+				st, ok := in.(*ssa.Store)
+				return ok && st.Addr == ssa.Value(al) && !good(in)
+			}
+			fl := NewFlow(c.P).After("carries-own-seqnum", Pred("options get the snapshot's seqNum", good)).
+				KillAfter("carries-own-seqnum", Pred("options overwritten", undo))
+			fl.MaxDepth = 0
+			res := fl.Analyze(x.Parent(), emptyState())
+			if res.stateBefore(x).has("carries-own-seqnum") {
+				return true, ""
+			}
+			return false, "a path reaches this call on which the options' seqNum was not set from the snapshot's seqNum (zero means: the DB's current visible sequence number)"
+		}
+		return false, fmt.Sprintf("options defined by %T, not by a struct literal in this function", v)
+	}
+	n := 0
+	for _, spec := range []struct{ fn, callee string }{
+		{"p.(*EventuallyFileOnlySnapshot).NewIterWithContext", "p.(*DB).newIter"},
+		{"p.(*EventuallyFileOnlySnapshot).ScanInternal", "p.(*DB).newInternalIter"},
+	} {
+		fn := c.Fn(rule, spec.fn)
+		if fn == nil {
+			continue
+		}
+		for _, in := range instrs(fn, CallTo(spec.callee)) {
+			for _, a := range in.(*ssa.Call).Common().Args {
+				t := a.Type()
+				isOpt := optT != nil && types.Identical(t, optT)
+				if st, isStruct := t.Underlying().(*types.Struct); isStruct && !isOpt {
+					for i := 0; i < st.NumFields(); i++ {
+						if optT != nil && types.Identical(st.Field(i).Type(), optT) {
+							isOpt = true
+						}
+					}
+				}
+				if !isOpt {
+					continue
+				}
+				n++
+				ok, why := allDefs(a, 0, map[ssa.Value]bool{})
+				c.Ob(rule, fn, "reads at the snapshot's own sequence number on every path", c.P.Pos(in.Pos()), ok, why)
+			}
+		}
+	}
+	if n < 3 {
+		c.Unresolved(rule, fmt.Sprintf("only %d snapshotIterOpts arguments found in the EFOS read entry points (expected 3)", n))
+	}
 }
